@@ -89,8 +89,8 @@ def tokenize(text):
             a, b_ = toks[i - 1], toks[i + 1]
             signs = "(),;=+-*/<>"
             # not after a name that would become a call / an array reference: NAME (..) and NAME(..) are different things
-            if a["k"] == "word" and b_["text"] in ("+", "-"):
-                continue        # a sign directly after a keyword (TO-2, STEP-2): not required of the parser by C09
+            if a["k"] == "word" and (b_["text"] in ("+", "-") or a["text"].upper() in KEYWORDS):
+                continue        # a sign or a comma directly after a keyword (TO-2, STEP-2, LOCATE, ,0): the blank after a keyword stays
             if (a["k"] == "other" and a["text"] in signs and a["text"] != ")") or (b_["k"] == "other" and b_["text"] in signs and b_["text"] != "("):
                 tk["drop"] = True
     # a colon that separates two statements may have blanks around it; the colon of a label may not (it belongs to the name)
@@ -247,10 +247,12 @@ def run(tier, replay):
         print("replay:", "same" if same else "DIFFERENT")
         return 0 if same else 1
     sd = seeds(tier, rng)
+    # pairs of sites (thorough) are enumerated for the 40 shortest seeds: the product over all seeds is out of reach
+    pair_ids = {s["id"] for s in sorted(sd, key=lambda x: len(x["toks"]))[:40]}
     spath = os.path.join(d, "seeds.ndjson")
     with open(spath, "w") as f:
         for s in sd:
-            f.write(dumps({"id": s["id"], "toks": [{k: tk[k] for k in ("k", "id", "join", "split", "pad", "tight", "drop", "case", "width", "extra")} for tk in s["toks"]]}) + "\n")
+            f.write(dumps({"id": s["id"], "pairs": s["id"] in pair_ids, "toks": [{k: tk[k] for k in ("k", "id", "join", "split", "pad", "tight", "drop", "case", "width", "extra")} for tk in s["toks"]]}) + "\n")
     res = run_tlc("Layout.tla", "Layout_%s.cfg" % tier, os.path.join(d, "tlc"), env={"SEEDS": spath}, timeout=3000)
     if res.timed_out:
         raise ToolError("TLC timed out on Layout.tla")
